@@ -10,11 +10,11 @@ package verifrt
 // One operation, chosen by FS.FailAt, fails with FS.FailErr (a write fails after persisting half of its bytes).
 
 import (
+	"errors"
 	"io"
 	"io/fs"
 	"os"
 	"strconv"
-	"syscall"
 )
 
 // ---- executable memory
@@ -47,11 +47,14 @@ type MFS struct {
 	tmp     int
 }
 
+// ErrModelIO is the error of an injected failure (stands for EIO / ENOSPC).
+var ErrModelIO = errors.New("model: input/output error")
+
 // FS is the model instance (nil until ModelFSReset is called by a harness).
 var FS *MFS
 
 func ModelFSReset() *MFS {
-	FS = &MFS{Files: map[string]*MInode{}, handles: map[*os.File]*mHandle{}, FailAt: -1, FailErr: syscall.EIO}
+	FS = &MFS{Files: map[string]*MInode{}, handles: map[*os.File]*mHandle{}, FailAt: -1, FailErr: ErrModelIO}
 	return FS
 }
 
@@ -73,13 +76,13 @@ func (m *MFS) step(op string) bool {
 	return k == m.FailAt
 }
 
-func notExist(op, name string) error { return &fs.PathError{Op: op, Path: name, Err: syscall.ENOENT} }
+func notExist(op, name string) error { return &fs.PathError{Op: op, Path: name, Err: fs.ErrNotExist} }
 
 func (m *MFS) open(name string, flag int) (*os.File, error) {
 	ino, ok := m.Files[name]
 	creating := flag&os.O_CREATE != 0 && !ok
 	if flag&os.O_CREATE != 0 && flag&os.O_EXCL != 0 && ok {
-		return nil, &fs.PathError{Op: "open", Path: name, Err: syscall.EEXIST}
+		return nil, &fs.PathError{Op: "open", Path: name, Err: fs.ErrExist}
 	}
 	if !ok && flag&os.O_CREATE == 0 {
 		return nil, notExist("open", name)
@@ -156,13 +159,10 @@ func ModelFileWrite(f *os.File, b []byte) (int, error) {
 		return 0, err
 	}
 	if !h.writable {
-		return 0, &fs.PathError{Op: "write", Path: h.name, Err: syscall.EBADF}
-	}
-	if len(b) == 0 {
-		return 0, nil
+		return 0, &fs.PathError{Op: "write", Path: h.name, Err: fs.ErrInvalid}
 	}
 	n := len(b)
-	failed := m.step("write " + h.name)
+	failed := m.step("write " + h.name) // also for an empty buffer: the system call is made
 	if failed {
 		n = len(b) / 2 // a failing write may have persisted part of its bytes
 	}
@@ -258,7 +258,7 @@ func ModelRename(oldpath, newpath string) error {
 	m := mfs()
 	ino, ok := m.Files[oldpath]
 	if !ok {
-		return &os.LinkError{Op: "rename", Old: oldpath, New: newpath, Err: syscall.ENOENT}
+		return &os.LinkError{Op: "rename", Old: oldpath, New: newpath, Err: fs.ErrNotExist}
 	}
 	if m.step("rename " + oldpath + " " + newpath) {
 		return &os.LinkError{Op: "rename", Old: oldpath, New: newpath, Err: m.FailErr}
@@ -272,10 +272,10 @@ func ModelLink(oldpath, newpath string) error {
 	m := mfs()
 	ino, ok := m.Files[oldpath]
 	if !ok {
-		return &os.LinkError{Op: "link", Old: oldpath, New: newpath, Err: syscall.ENOENT}
+		return &os.LinkError{Op: "link", Old: oldpath, New: newpath, Err: fs.ErrNotExist}
 	}
 	if _, exists := m.Files[newpath]; exists {
-		return &os.LinkError{Op: "link", Old: oldpath, New: newpath, Err: syscall.EEXIST}
+		return &os.LinkError{Op: "link", Old: oldpath, New: newpath, Err: fs.ErrExist}
 	}
 	if m.step("link " + oldpath + " " + newpath) {
 		return &os.LinkError{Op: "link", Old: oldpath, New: newpath, Err: m.FailErr}
